@@ -84,7 +84,7 @@ class XPath2Parser(XPath1Parser):
 
     PATH_STEP_LABELS = ('axis', 'function', 'kind test')
     PATH_STEP_SYMBOLS = {
-        '(integer)', '(string)', '(float)', '(decimal)', '(name)', '*', '@', '..', '.', '(', '{'
+        '(integer)', '(string)', '(float)', '(decimal)', '(name)', '*', '@', '..', '.', '(', '{', '$'
     }
 
     # https://www.w3.org/TR/xpath20/#id-reserved-fn-names
